@@ -319,7 +319,11 @@ _poll_add_(struct qb_loop *l,
 		*pe_pt = pe;
 		return 0;
 	} else {
-		pe->state = QB_POLL_ENTRY_EMPTY;
+		/*
+		 * don't leave the fd behind in the unused slot: poll_mod/del
+		 * look entries up by fd and would stop at this one.
+		 */
+		_poll_entry_empty_(pe);
 		return res;
 	}
 }
